@@ -310,6 +310,36 @@ impl Sys for C08 {
     }
 }
 
+/// Whatever the store says about discoverable credentials (full support, only non-discoverable,
+/// forced discoverable), a credential with a counter is written back at every assertion: three
+/// assertions report start+1, +2, +3 and leave each value in the store.
+fn capability_one(cap: u8, start: u32) -> Vec<(String, String)> {
+    let mut rs = RefStore::with(vec![seeded(&Seed { n: 1, rp: RP.into(), handle: Some(vec![1]), counter: Some(start), hmac: None })]);
+    rs.cap = match cap {
+        0 => Cap::Full,
+        1 => Cap::OnlyNonDiscoverable,
+        _ => Cap::ForcedDiscoverable,
+    };
+    let store = Shared::new(rs);
+    let mut auth = Authenticator::new(Aaguid::new_empty(), store.clone(), ScriptedUv::consenting(Log::new()));
+    let mut v = vec![];
+    for k in 1..=3u32 {
+        match par::catch(|| block_on(auth.get_assertion(ga_request(RP, Some(vec![cred_id(1)]), false, true, true, false, None)))) {
+            Err(p) => v.push(("panic".into(), p)),
+            Ok(Err(e)) => v.push(("unexpected-failure".into(), format!("assertion {k} on a store with capability {cap} failed: {e:?}"))),
+            Ok(Ok(r)) => {
+                let stored = store.recs().first().and_then(|r| r.counter);
+                let reported = r.auth_data.counter.unwrap_or(0);
+                if reported != start + k || stored != Some(start + k) {
+                    v.push(("reported-differs-from-stored".into(), format!("store capability {cap}: assertion {k} from counter {start} reports {reported}, the store holds {stored:?}")));
+                    break;
+                }
+            }
+        }
+    }
+    v
+}
+
 pub fn run(ctx: &Ctx) -> Result<Run, String> {
     let depth = ctx.tier.pick(4, 8);
     let mut out = graph::bfs(&C08 { depth, memory: false }, ctx.threads);
@@ -319,6 +349,14 @@ pub fn run(ctx: &Ctx) -> Result<Run, String> {
     out.transitions += out_m.transitions;
     out.generated += out_m.generated;
     out.stats.merge(out_m.stats);
+    for cap in 0..3u8 {
+        for start in [0u32, 5, 255, 0xFFFF_FFF0] {
+            out.stats.case(&("capability", cap, start), true, "store-capability");
+            for (k, d) in capability_one(cap, start) {
+                out.stats.finding(Finding::new(format!("op=assert/kind={k}"), d, json!({"capability": {"cap": cap, "start": start}})));
+            }
+        }
+    }
     {
         let mut st = Stats::new();
         for start in [0u32, 1, 7, 0x7FFF_FFFF, 0xFFFF_FFFD, 0xFFFF_FFFE] {
@@ -350,7 +388,7 @@ pub fn run(ctx: &Ctx) -> Result<Run, String> {
     }
     let mut run = Run::from_stats(
         "model_checking",
-        "level-synchronous explicit-state BFS over the real get_assertion/make_credential: 81 start vectors (two credentials with each of 9 start counters incl. 0, 255, 0x010203FE, 2^31-1, 2^31, 2^32-2, 2^32-1 and none, one counter-less credential), actions assert(cred i, PRF on/off, with consent / silent: up=uv=false and nothing reported) and register(counter on/off), states deduplicated per start vector on the counter vector; run on the contract store and (one level less deep) on Arc<Mutex<MemoryStore>>; every transition is a distinct non-trivial case (a real ceremony on a rebuilt store)",
+        "three assertions on a store of each discoverability capability (full, only non-discoverable, forced) from four start counters; level-synchronous explicit-state BFS over the real get_assertion/make_credential: 81 start vectors (two credentials with each of 9 start counters incl. 0, 255, 0x010203FE, 2^31-1, 2^31, 2^32-2, 2^32-1 and none, one counter-less credential), actions assert(cred i, PRF on/off, with consent / silent: up=uv=false and nothing reported) and register(counter on/off), states deduplicated per start vector on the counter vector; run on the contract store and (one level less deep) on Arc<Mutex<MemoryStore>>; every transition is a distinct non-trivial case (a real ceremony on a rebuilt store)",
         true,
         out.stats,
     );
@@ -545,6 +583,9 @@ pub fn eval_u2f_upgrade(start: u32, via_registration: bool) -> Vec<Finding> {
 }
 
 pub fn replay(_ctx: &Ctx, case: &Value) -> Result<Vec<Finding>, String> {
+    if let Some(c) = case.get("capability") {
+        return Ok(capability_one(c["cap"].as_u64().unwrap_or(0) as u8, c["start"].as_u64().unwrap_or(0) as u32).into_iter().map(|(k, d)| Finding::new(format!("op=assert/kind={k}"), d, case.clone())).collect());
+    }
     if let Some(c) = case.get("u2f_upgrade") {
         return Ok(eval_u2f_upgrade(c["start"].as_u64().unwrap_or(0) as u32, c["via_registration"].as_bool().unwrap_or(false)));
     }
